@@ -728,6 +728,10 @@ def own(g, rs, ctx):
         ctx.count("own/rank_lists")
         big = [1] + [50] * (order - 1) + [1]
         D.tensor_train(X, big)
+        # tensor ring: interior bonds larger than any unfolding allows (they are clamped internally), from every starting mode
+        D.tensor_ring(X, [1, min(2, shp[0])] + [50] * (order - 2) + [1], mode=0)
+        D.tensor_ring(X, [2, 1] + [50] * (order - 2) + [2], mode=int(rs.randint(order)))
+        D.TensorRing([1, min(2, shp[0])] + [50] * (order - 2) + [1]).fit_transform(X)
         D.tucker(X, [50] * order, n_iter_max=1, init="svd")
         rk = [2] * order
         D.partial_tucker(X, rk[:2], modes=[0, order - 1], n_iter_max=1)
